@@ -207,6 +207,11 @@ func (c RawConfiguration) handleCorrectableCall(ctx context.Context, corr *Corre
 		}
 		if (state.data.ServerStream && len(errs) == state.expectedReplies) ||
 			(!state.data.ServerStream && len(errs)+len(replies) == state.expectedReplies) {
+			if ctx.Err() != nil {
+				// the context ended (which may be why the remaining nodes failed)
+				corr.set(resp, clevel, QuorumCallError{cause: ctx.Err(), errors: errs, replies: len(replies)}, true)
+				return
+			}
 			corr.set(resp, clevel, QuorumCallError{cause: Incomplete, errors: errs, replies: len(replies)}, true)
 			return
 		}
